@@ -67,6 +67,7 @@ def suffix_rule(ctx):
     # every path of the function: the suffix literals of the last condition taken positively -> the variant returned
     from ..core import sym_paths
     table = {}
+    tested_terms = []
     for sp in sym_paths(fv, fv.body):
         res = sp.ret if sp.ret is not None else sp.value
         s = some_of(res) if res is not None else None
@@ -87,6 +88,7 @@ def suffix_rule(ctx):
         for x in disjuncts(t):
             if x[0] == "call" and x[1].endswith("::ends_with") and len(x) == 4 and x[3][0] == "lit":
                 table[x[3][1]] = variant
+                tested_terms.append(x[2])
     for suf, var in SUFFIX_SPEC.items():
         ctx.check("C06.X", "SeqFormat::get:%s" % suf, table.get(suf) == var, "%s -> %s" % (suf, var),
                   "suffix %s maps to %s, the property requires %s" % (suf, table.get(suf), var), fv.fn["sp"])
@@ -102,7 +104,7 @@ def suffix_rule(ctx):
         (len(gz) == 1 and gz[0][1] == ".gz") or (not gz and cname(trims[0]).endswith("trim_end_matches")))
     # the suffix tests must look at the stripped path
     tested = [fv.term(n["recv"]) for n, l in ends_with_lits(fv) if l in SUFFIX_SPEC]
-    ok = ok and bool(tested)
+    ok = ok and (bool(tested) or bool(tested_terms))
     ctx.check("C06.X", "SeqFormat::get:gz_strip", ok, "optional .gz stripped before the suffix test",
               "SeqFormat::get does not strip exactly the literal \".gz\" (tests %s, strips %s)"
               % ([l for _, l in gz], [show(fv.term(t["args"][0])) for t in trims]), fv.fn["sp"])
